@@ -103,7 +103,7 @@ func (x *exec) load(st *State, p *PtrV) Val {
 			arr := x.getHeap(st, heapKey(p.Root, lp), ArrSort(SInt, l.Sort))
 			ts[i] = Select(arr, p.Obj)
 		}
-		x.assumeLeaf(st, l, ts[i])
+		x.assumeLeafOwned(st, l, ts[i], p.Obj)
 	}
 	v := unflattenVal(ts, t)
 	if sv, ok := v.(*SliceV); ok {
@@ -207,7 +207,7 @@ func (x *exec) mapLookup(st *State, mt *types.Map, m Term, k Term) (Val, Term) {
 	for i, l := range ls {
 		arr := x.getHeap(st, mapKey(mt, "v."+l.Path), ArrSort(SInt, ArrSort(SInt, l.Sort)))
 		raw := Select(Select(arr, m), k)
-		x.assumeLeaf(st, l, raw)
+		x.assumeLeafOwned(st, l, raw, m)
 		ts[i] = Ite(has, raw, zeroLeaf(l))
 	}
 	// a nil map has no keys
